@@ -125,7 +125,7 @@ TEXT = {
         "note": "Two commands of different kinds; chain ratios are powers of two so the product is exact.",
     },
     "C15": {
-        "engine": "rrtk-mc c15-settable-following + c15-history-adapter + c15-time-getters",
+        "engine": "rrtk-mc c15-settable-following + c15-terminal-following + c15-history-adapter + c15-time-getters",
         "technique": "stateless bounded-exhaustive exploration of operation sequences (all 10^d sequences of set/fail/follow/stop/update/getter-change on two settables; all 11^d sequences of clock/set_delta/set_time/fail/get/update on every GetterFromHistory constructor) against small bookkeeping reference models",
         "text": "Every sequence of 7 (8 thorough) operations on a recording settable and on ConstantGetter, and every sequence of "
                 "6 (7) operations on GetterFromHistory for each constructor form and two construction instants, is executed "
